@@ -176,6 +176,7 @@ func checkC13(c *Check) {
 	c.backoffArithmetic("C13.3 hold-down-length")
 	c.dampPeerRule("C13.3 damp-predicate")
 	c.peerConfigVerbatim("C13.1 registry-key-consistent")
+	c.readerFraming("C13.3 protocol-errors-reach-the-manager")
 	c.inboundLookup("C13.1 lookup-and-destination", "C13.4 registry-locked")
 	c.registryKeys("C13.1 registry-keys")
 	// incomingConnection: close when the peer is stopping, else hand over
